@@ -128,6 +128,9 @@ class Collector:
         self.extra: Dict[str, Any] = {}
         self.exhaustive_parts: List[str] = []
         self.uncovered: List[str] = []
+        # distinct non-trivial cases counted by construction (enumerations whose members are
+        # pairwise distinct and therefore need no digest set)
+        self.nontrivial_extra = 0
 
     def record(self, case: Any, out: Outcome) -> None:
         self.evaluations += 1
@@ -151,6 +154,7 @@ class Collector:
     def merge(self, other: "Collector") -> None:
         self.evaluations += other.evaluations
         self.nontrivial |= other.nontrivial
+        self.nontrivial_extra += other.nontrivial_extra
         for k, v in other.classes.items():
             self.classes[k] = self.classes.get(k, 0) + v
         for s in other.samples:
@@ -388,7 +392,7 @@ def run_property(pid: str, tier: str, seed: int, replay: Optional[str] = None) -
         "level": mod.LEVEL,
         "coverage": {
             "evaluations": total.evaluations,
-            "distinct_nontrivial": len(total.nontrivial),
+            "distinct_nontrivial": len(total.nontrivial) + total.nontrivial_extra,
             "rule": mod.RULE,
             "samples": total.samples[:MAX_SAMPLES],
             "classes": dict(sorted(total.classes.items())),
@@ -423,12 +427,12 @@ def run_property(pid: str, tier: str, seed: int, replay: Optional[str] = None) -
         if total.classes.get(cls, 0) < minimum:
             print(f"INCONCLUSIVE: class {cls} has {total.classes.get(cls, 0)} < {minimum}", file=sys.stderr)
             return 2
-    if len(total.nontrivial) < 2 or total.evaluations < 1:
+    if len(total.nontrivial) + total.nontrivial_extra < 2 or total.evaluations < 1:
         print("INCONCLUSIVE: fewer than 2 distinct non-trivial cases", file=sys.stderr)
         return 2
     print(
         f"OK property={pid} tier={tier} seed={seed} evaluations={total.evaluations} "
-        f"distinct_nontrivial={len(total.nontrivial)} known_findings={len(known_hit)} wall={wall:.1f}s"
+        f"distinct_nontrivial={len(total.nontrivial) + total.nontrivial_extra} known_findings={len(known_hit)} wall={wall:.1f}s"
     )
     return 0
 
